@@ -104,6 +104,16 @@ impl SchemaCatalog {
         Ok(table_id)
     }
 
+    /// The id the next created object (table, view or index) will get.
+    pub(super) fn next_id(&self) -> u32 {
+        self.next_id
+    }
+
+    /// Makes sure the next created object gets an id not lower than `id`.
+    pub(super) fn advance_next_id(&mut self, id: u32) {
+        self.next_id = self.next_id.max(id);
+    }
+
     pub(super) fn delete_table(&mut self, id: TableId) {
         let catalog = self.tables.remove(&id).unwrap();
         self.table_idxs.remove(catalog.name()).unwrap();
